@@ -106,7 +106,10 @@ type cnode struct {
 	started    bool
 	dead       string
 	nreply     int
-	obj        byte
+	// the tokens of the AUTH_RESPONSE frames received (after inflation) and whether AUTH_SUCCESS was sent
+	authResponses [][]byte
+	authDone      bool
+	obj           byte
 	// reply decides what to write back for a decoded request: a full frame
 	reply func(n *cnode, r *reqLog) []byte
 }
